@@ -3,7 +3,7 @@
 rev=$1; prop=$2; shift 2
 d=$(mktemp -d /tmp/vprev_XXXXXX)
 git -C /repo archive "$rev" autoarray | tar -x -C "$d"
-cd /verif && VERIF_REPO="$d" /venv/bin/python -m vp.run "$prop" "$@"
+cd /verif && VERIF_EVIDENCE_OUT="$d/evidence_out" VERIF_REPLAY_OUT="$d/replays_out" VERIF_REPO="$d" /venv/bin/python -m vp.run "$prop" "$@"
 rc=$?
 rm -rf "$d"
 exit $rc
